@@ -295,7 +295,8 @@ def render(t, r, redundant=0.0, parent=None, side=None):
 LEAF_POOL = [("bind", "[a]"), ("bind", "[b_1]"), ("bind", "[NAME]"), ("int", "1"), ("int", "20"), ("float", "2.5"),
              ("float", "0.25"), ("dq", '"s"'), ("dq", '"a b"'), ("sq", "'s'"), ("sq", "'x y'")]
 LEAF_POOL2 = LEAF_POOL + [("bq", "`2020-01-01`"), ("dq", '"it\'s"'), ("sq", "'say \"hi\"'"), ("int", "0"), ("float", "100.5"),
-                          ("dq", '"(a)"'), ("dq", '"a)"'), ("sq", "'(b'")]
+                          ("dq", '"(a)"'), ("dq", '"a)"'), ("sq", "'(b'"), ("sq", "'5" + '"' + "'"), ("dq", '"6' + "'" + '"'),
+                          ("dq", '"O' + "'" + 'Brien"')]
 FUNCS = ["tostring", "round", "length", "upper", "area", "fromtext", "commify"]
 
 
